@@ -67,6 +67,13 @@ class R:
             a[name] = fresh()
         return a[name]
 
+    def __setattr__(self, name, v):
+        if name in ("i", "kind", "truth", "attrs"):
+            object.__setattr__(self, name, v)
+        else:
+            LOG.append(("setattr", self.i, name, cr(v)))
+            object.__getattribute__(self, "attrs")[name] = v
+
     def __getitem__(self, key):
         LOG.append(("getitem", self.i, cr(key)))
         return fresh()
